@@ -11,7 +11,13 @@
 use super::*;
 use font_types::{F2Dot14, GlyphId};
 use read_fonts::tables::cvar::Cvar;
+use read_fonts::tables::avar::SegmentMaps;
 use read_fonts::tables::gvar::Gvar;
+use read_fonts::tables::hvar::Hvar;
+use read_fonts::tables::mvar::Mvar;
+use read_fonts::tables::variations::{DeltaSetIndex, DeltaSetIndexMap, ItemVariationStore};
+use read_fonts::tables::vvar::Vvar;
+use font_types::{Fixed, Tag};
 use read_fonts::tables::variations::{Tuple, TupleDelta, TupleIndex, TupleVariation, TupleVariationCount, TupleVariationData, TupleVariationHeader};
 use read_fonts::{FontData, FontRead, ReadError};
 
@@ -137,6 +143,19 @@ fn rcoords(rng: &mut Rng, axis_count: u16) -> Vec<i16> {
 /// the trailing coordinate arguments of a request line (nothing for an empty slice)
 fn coord_args(cs: &[i16]) -> String {
     cs.iter().map(|c| format!(" {c}")).collect()
+}
+
+/// coordinates that land inside the generated regions most of the time
+fn hot_coords(rng: &mut Rng, axis_count: u16) -> Vec<i16> {
+    (0..axis_count)
+        .map(|_| match rng.below(8) {
+            0..=3 => 0x4000,
+            4 => 0x2000,
+            5 => -0x4000,
+            6 => 0,
+            _ => rcoord(rng),
+        })
+        .collect()
 }
 
 fn f2(cs: &[i16]) -> Vec<F2Dot14> {
@@ -436,9 +455,40 @@ fn settle(ctx: &mut Ctx, req: String, bytes: &[u8], r: Result<(String, Seen), St
             ctx.oracle("no-panic", true, String::new, String::new);
             ctx.oracle("iter-bounded", seen.over.is_none(), || format!("{req} [{}]", hex(bytes)), || seen.over.clone().unwrap_or_default());
             ctx.oracle("slice-inside-data", seen.outside.is_none(), || format!("{req} [{}]", hex(bytes)), || seen.outside.clone().unwrap_or_default());
+            classify(ctx, &req, &s);
             ctx.case(req, s);
         }
         Err(m) => ctx.oracle("no-panic", false, || format!("{req} [{}]", hex(bytes)), || m.clone()),
+    }
+}
+
+/// branch distribution: which kinds of results each command produced (`<cmd>.<kind>`: error kinds,
+/// `none` / `n` answers, values, non-zero values)
+fn classify(ctx: &mut Ctx, req: &str, resp: &str) {
+    let cmd = req.split(' ').next().unwrap_or("").trim_start_matches("hv.").to_string();
+    let mut kinds: Vec<&'static str> = vec![];
+    for tok in resp.split(|c: char| c == ' ' || c == '|' || c == ':' || c == '/' || c == '+') {
+        let k = match tok {
+            "" | "-" => continue,
+            "eO" => "err-oob",
+            "eN" => "err-null",
+            "eM" => "err-malformed",
+            "eT" => "err-metric-missing",
+            "n" | "none" => "none",
+            "s" | "ok" => "some",
+            "0" => "zero",
+            t if t.starts_with("eF") => "err-format",
+            t if t.starts_with("eI") => "err-index",
+            t if t.starts_with("e?") => "err-OTHER",
+            t if t.starts_with('a') => continue,
+            _ => "value",
+        };
+        if !kinds.contains(&k) {
+            kinds.push(k);
+        }
+    }
+    for k in kinds {
+        ctx.count(&format!("{cmd}.{k}"));
     }
 }
 
@@ -821,7 +871,483 @@ fn run_cvard(ctx: &mut Ctx) {
     }
 }
 
+// ------------------------------------------------------------------------------------------------
+// DeltaSetIndexMap: `hv.dsim <hex> <indices…>`
+
+fn dsim_bytes(rng: &mut Rng, format: u8, entry_format: u8, map_count: u32) -> B {
+    let mut b = B::new();
+    b.f8(format).f8(entry_format);
+    if format == 0 {
+        b.f16(map_count as u16);
+    } else {
+        b.f32(map_count);
+    }
+    let entry_size = ((entry_format >> 4) & 3) as usize + 1;
+    b.bytes(&rng.bytes(entry_size * map_count as usize));
+    b
+}
+
+fn ask_dsim(ctx: &mut Ctx, idxs: &[u32], bytes: &[u8]) {
+    let req = format!("hv.dsim {} {}", hex(bytes), join(idxs));
+    let r = catch(|| {
+        let mut seen = Seen::default();
+        let s = match DeltaSetIndexMap::read(FontData::new(bytes)) {
+            Err(e) => err_str(&e),
+            Ok(m) => {
+                let ef = m.entry_format();
+                let (fmt, mc) = match &m {
+                    DeltaSetIndexMap::Format0(f) => (0, f.map_count() as u32),
+                    DeltaSetIndexMap::Format1(f) => (1, f.map_count()),
+                };
+                if !inside(bytes, m.map_data()) {
+                    seen.outside = Some("map_data outside the table".into());
+                }
+                let last = m.get(mc.saturating_sub(1));
+                let per: Vec<String> = idxs
+                    .iter()
+                    .map(|i| {
+                        let r = m.get(*i);
+                        // an index at or beyond map_count uses the last entry
+                        if *i >= mc && mc > 0 && r != last && seen.over.is_none() {
+                            seen.over = Some(format!("get({i}) differs from the last entry"));
+                        }
+                        match r {
+                            Ok(ix) => format!("{}:{}", ix.outer, ix.inner),
+                            Err(e) => err_str(&e),
+                        }
+                    })
+                    .collect();
+                format!("{} {} {} {} {} {} | {}", fmt, ef.bits(), ef.entry_size(), ef.bit_count(), mc, m.map_data().len(), per.join(" "))
+            }
+        };
+        (s, seen)
+    });
+    settle(ctx, req, bytes, r);
+}
+
+fn run_dsim(ctx: &mut Ctx) {
+    // every entry format (entry size 1..4 × inner bit count 1..16) × both formats
+    for ef in 0..=0x3Fu8 {
+        for format in [0u8, 1] {
+            let mc = match (ef as u32 + format as u32) % 4 {
+                0 => 0,
+                1 => 1,
+                _ => 2 + ctx.rng.below(4) as u32,
+            };
+            let reserved = if ctx.rng.chance(1, 8) { 0xC0 } else { 0 };
+            let b = dsim_bytes(&mut ctx.rng, format, ef | reserved, mc);
+            let idxs = edge32(&[mc as u64, b.len() as u64]);
+            if ef % 8 == format {
+                for v in variants(&mut ctx.rng, &b, 4) {
+                    ask_dsim(ctx, &idxs, &v);
+                }
+            } else {
+                ask_dsim(ctx, &idxs, &b.v);
+            }
+            ctx.count(&format!("dsim.format{format}.size{}", ((ef >> 4) & 3) + 1));
+        }
+    }
+    // large maps: count × entry size around the data length, format 1 counts up to u32::MAX
+    for (format, ef, mc, data) in [(1u8, 0x30u8, u32::MAX, 8usize), (1, 0x30, 0x4000_0000, 16), (1, 0x00, 0x100, 0x100), (0, 0x3F, 0x40, 0x40 * 4), (0, 0x10, 0xFFFF, 30), (1, 0x20, 3, 8), (1, 0x20, 3, 9), (2, 0, 0, 4), (0xFF, 0, 0, 4)] {
+        let mut b = B::new();
+        b.u8(format).u8(ef);
+        if format == 0 {
+            b.u16(mc as u16);
+        } else {
+            b.u32(mc);
+        }
+        b.bytes(&ctx.rng.bytes(data));
+        ask_dsim(ctx, &edge32(&[mc as u64]), &b.v);
+        ctx.count("dsim.big");
+    }
+}
+
+// ------------------------------------------------------------------------------------------------
+// ItemVariationStore: `hv.ivs <hex> <2k> <outer inner>… <coords…>`
+
+fn row_len(word_delta_count: u16, region_index_count: u16) -> usize {
+    let long = word_delta_count & 0x8000 != 0;
+    let words = (word_delta_count & 0x7FFF) as usize;
+    let shorts = (region_index_count as usize).saturating_sub(words);
+    if long {
+        words * 4 + shorts * 2
+    } else {
+        words * 2 + shorts
+    }
+}
+
+/// returns the store and (item_count, region_index_count) per subtable
+fn ivs(rng: &mut Rng, axis_count: u16, n_regions: u16, n_data: usize) -> (B, Vec<(u16, u16)>) {
+    let mut b = B::new();
+    b.u16(1).f32(0).f16(n_data as u16);
+    let offs = b.len();
+    for _ in 0..n_data {
+        b.f32(0);
+    }
+    let at = b.len();
+    b.set32(2, at as u32);
+    b.f16(axis_count).f16(n_regions);
+    for _ in 0..n_regions {
+        for _ in 0..axis_count {
+            let vals: [i16; 3] = match rng.below(9) {
+                0..=2 => [0, 0x4000, 0x4000],
+                3 => [-0x4000, -0x4000, 0],
+                4 | 5 => [0, 0x2000, 0x4000],
+                6 => [-0x4000, 0x2000, 0x4000],
+                7 => [0, 0, 0],
+                _ => [rcoord(rng), rcoord(rng), rcoord(rng)],
+            };
+            b.i16(vals[0]).i16(vals[1]).i16(vals[2]);
+        }
+    }
+    let mut shapes = vec![];
+    for k in 0..n_data {
+        if rng.chance(1, 8) {
+            shapes.push((0, 0));
+            continue;
+        }
+        let at = b.len();
+        b.set32(offs + 4 * k, at as u32);
+        let item_count = if rng.chance(1, 6) { 0 } else { 1 + rng.below(3) as u16 };
+        let nri = match rng.below(6) {
+            0 => 0,
+            1 => 17 + rng.below(3) as u16,
+            _ => 1 + rng.below(4) as u16,
+        };
+        let mut word = match rng.below(6) {
+            0 => nri + 1 + rng.below(3) as u16,
+            1 => 0,
+            2 => nri,
+            _ => rng.below(nri as u64 + 1) as u16,
+        };
+        if rng.chance(1, 3) {
+            word |= 0x8000;
+        }
+        b.f16(item_count).f16(word).f16(nri);
+        for _ in 0..nri {
+            b.u16(if n_regions == 0 || rng.chance(1, 8) { rng.below(n_regions as u64 + 3) as u16 } else { rng.below(n_regions as u64) as u16 });
+        }
+        let n = row_len(word, nri) * item_count as usize;
+        let mut bytes = rng.bytes(n);
+        if rng.chance(1, 4) {
+            for x in bytes.iter_mut() {
+                *x = *rng.pick(&[0x7Fu8, 0x80, 0xFF, 0]);
+            }
+        }
+        b.bytes(&bytes);
+        shapes.push((item_count, nri));
+    }
+    (b, shapes)
+}
+
+fn ask_ivs(ctx: &mut Ctx, pairs: &[(u16, u16)], coords: &[i16], bytes: &[u8]) {
+    let flat: Vec<u16> = pairs.iter().flat_map(|(a, b)| [*a, *b]).collect();
+    let req = format!("hv.ivs {} {} {}{}", hex(bytes), flat.len(), join(&flat).trim_end_matches('-').trim_end(), coord_args(coords)).replace("  ", " ");
+    let cs = f2(coords);
+    let r = catch(|| {
+        let s = match ItemVariationStore::read(FontData::new(bytes)) {
+            Err(e) => err_str(&e),
+            Ok(store) => {
+                let per: Vec<String> = pairs
+                    .iter()
+                    .map(|(o, i)| {
+                        let ix = DeltaSetIndex { outer: *o, inner: *i };
+                        let a = match store.compute_delta(ix, &cs) {
+                            Ok(v) => v.to_string(),
+                            Err(e) => err_str(&e),
+                        };
+                        let f = match store.compute_float_delta(ix, &cs) {
+                            Ok(_) => "ok".to_string(),
+                            Err(e) => err_str(&e),
+                        };
+                        format!("{a}/{f}")
+                    })
+                    .collect();
+                if per.is_empty() {
+                    "-".into()
+                } else {
+                    per.join(" ")
+                }
+            }
+        };
+        (s, Seen::default())
+    });
+    settle(ctx, req, bytes, r);
+}
+
+fn run_ivs(ctx: &mut Ctx) {
+    let rounds = if ctx.thorough { 40 } else { 10 };
+    for round in 0..rounds {
+        let ac = match round % 5 {
+            0 => 0,
+            1 => 1,
+            _ => 1 + ctx.rng.below(3) as u16,
+        };
+        let n_regions = match round % 4 {
+            0 => 0,
+            _ => 1 + ctx.rng.below(4) as u16,
+        };
+        let n_data = 1 + ctx.rng.below(3) as usize;
+        let (b, shapes) = ivs(&mut ctx.rng, ac, n_regions, n_data);
+        let coords = if round % 3 == 2 { rcoords(&mut ctx.rng, ac.max(1)) } else { hot_coords(&mut ctx.rng, ac.max(1)) };
+        // boundary outer / inner indices
+        let mut pairs: Vec<(u16, u16)> = vec![(n_data as u16, 0), (0xFFFF, 0xFFFF), (n_data as u16 - 1, 0xFFFF)];
+        for (k, (ic, _)) in shapes.iter().enumerate() {
+            for inner in [0u16, ic.saturating_sub(1), *ic, ic + 1] {
+                pairs.push((k as u16, inner));
+            }
+        }
+        pairs.sort();
+        pairs.dedup();
+        for (k, v) in variants(&mut ctx.rng, &b, 8).into_iter().enumerate() {
+            if k == 0 {
+                ask_ivs(ctx, &pairs, &coords, &v);
+                ask_ivs(ctx, &pairs, &[], &v);
+                ask_ivs(ctx, &pairs, &[0x4000], &v);
+            } else {
+                let p = [pairs[k % pairs.len()], pairs[(k / 3) % pairs.len()]];
+                ask_ivs(ctx, &p, &coords, &v);
+            }
+        }
+        ctx.count(&format!("ivs.axes{}", ac.min(3)));
+    }
+}
+
+// ------------------------------------------------------------------------------------------------
+// HVAR / VVAR: `hv.metrics <h|v> <which> <hex> <n> <gids…> <coords…>`
+
+fn metrics_var_table(rng: &mut Rng, n_maps: usize, axis_count: u16) -> B {
+    let mut b = B::new();
+    b.u16(1).u16(0).f32(0);
+    for _ in 0..n_maps {
+        b.f32(0);
+    }
+    let (nr, n_data) = (1 + rng.below(3) as u16, 1 + rng.below(2) as usize);
+    let (store, _) = ivs(rng, axis_count, nr, n_data);
+    let at = b.append(&store);
+    b.set32(4, at as u32);
+    for k in 0..n_maps {
+        match rng.below(5) {
+            0 => {}
+            1 if k > 0 => {
+                let prev = u32::from_be_bytes(b.v[8 + 4 * (k - 1)..12 + 4 * (k - 1)].try_into().unwrap());
+                b.set32(8 + 4 * k, prev);
+            }
+            2 => {
+                let ef = (rng.below(4) as u8) << 4 | rng.below(16) as u8;
+                let (f, mc) = (rng.below(2) as u8, rng.below(5) as u32);
+                let m = dsim_bytes(rng, f, ef, mc);
+                let at = b.append(&m);
+                b.set32(8 + 4 * k, at as u32);
+            }
+            _ => {
+                // entries that point into the store: 2 byte entries, 8 bit inner index
+                let (f, mc) = (rng.below(2) as u8, 1 + rng.below(5) as u32);
+                let mut m = B::new();
+                m.f8(f).f8(0x17);
+                if f == 0 {
+                    m.f16(mc as u16);
+                } else {
+                    m.f32(mc);
+                }
+                for _ in 0..mc {
+                    m.u8(if rng.chance(1, 6) { n_data as u8 } else { rng.below(n_data as u64) as u8 }).u8(rng.below(3) as u8);
+                }
+                let at = b.append(&m);
+                b.set32(8 + 4 * k, at as u32);
+            }
+        }
+    }
+    b
+}
+
+fn ask_metrics(ctx: &mut Ctx, vvar: bool, which: usize, gids: &[u32], coords: &[i16], bytes: &[u8]) {
+    let req = format!("hv.metrics {} {} {} {} {}{}", if vvar { "v" } else { "h" }, which, hex(bytes), gids.len(), join(gids), coord_args(coords));
+    let cs = f2(coords);
+    let fx = |r: Result<Fixed, ReadError>| match r {
+        Ok(v) => v.to_bits().to_string(),
+        Err(e) => err_str(&e),
+    };
+    let r = catch(|| {
+        let per: Vec<String> = if vvar {
+            match Vvar::read(FontData::new(bytes)) {
+                Err(e) => gids.iter().map(|_| err_str(&e)).collect(),
+                Ok(t) => gids
+                    .iter()
+                    .map(|g| {
+                        let g = GlyphId::new(*g);
+                        fx(match which {
+                            0 => t.advance_height_delta(g, &cs),
+                            1 => t.tsb_delta(g, &cs),
+                            2 => t.bsb_delta(g, &cs),
+                            _ => t.v_org_delta(g, &cs),
+                        })
+                    })
+                    .collect(),
+            }
+        } else {
+            match Hvar::read(FontData::new(bytes)) {
+                Err(e) => gids.iter().map(|_| err_str(&e)).collect(),
+                Ok(t) => gids
+                    .iter()
+                    .map(|g| {
+                        let g = GlyphId::new(*g);
+                        fx(match which {
+                            0 => t.advance_width_delta(g, &cs),
+                            1 => t.lsb_delta(g, &cs),
+                            _ => t.rsb_delta(g, &cs),
+                        })
+                    })
+                    .collect(),
+            }
+        };
+        (per.join(" "), Seen::default())
+    });
+    settle(ctx, req, bytes, r);
+}
+
+fn run_metrics(ctx: &mut Ctx) {
+    let rounds = if ctx.thorough { 24 } else { 6 };
+    for round in 0..rounds {
+        let vvar = round % 2 == 1;
+        let n_maps = if vvar { 4 } else { 3 };
+        let ac = 1 + ctx.rng.below(2) as u16;
+        let b = metrics_var_table(&mut ctx.rng, n_maps, ac);
+        let coords = hot_coords(&mut ctx.rng, ac);
+        let gids: Vec<u32> = vec![0, 1, 2, 3, 4, 5, 0xFFFF, 0x10000, 0x10001, u32::MAX];
+        for (k, v) in variants(&mut ctx.rng, &b, 8).into_iter().enumerate() {
+            if k == 0 {
+                for which in 0..n_maps {
+                    ask_metrics(ctx, vvar, which, &gids, &coords, &v);
+                    ask_metrics(ctx, vvar, which, &gids, &[], &v);
+                }
+            } else {
+                ask_metrics(ctx, vvar, k % n_maps, &gids[k % 3..k % 3 + 4], &coords, &v);
+            }
+        }
+        ctx.count(if vvar { "metrics.vvar" } else { "metrics.hvar" });
+    }
+}
+
+// ------------------------------------------------------------------------------------------------
+// MVAR: `hv.mvar <hex> <n> <tags as u32…> <coords…>`
+
+const MVAR_TAGS: [&[u8; 4]; 10] = [b"hasc", b"hdsc", b"hlgp", b"xhgt", b"cpht", b"undo", b"unds", b"stro", b"strs", b"gsp0"];
+
+fn ask_mvar(ctx: &mut Ctx, tags: &[u32], coords: &[i16], bytes: &[u8]) {
+    let req = format!("hv.mvar {} {} {}{}", hex(bytes), tags.len(), join(tags), coord_args(coords));
+    let cs = f2(coords);
+    let r = catch(|| {
+        let per: Vec<String> = match Mvar::read(FontData::new(bytes)) {
+            Err(e) => tags.iter().map(|_| err_str(&e)).collect(),
+            Ok(t) => tags
+                .iter()
+                .map(|tag| match t.metric_delta(Tag::from_be_bytes(tag.to_be_bytes()), &cs) {
+                    Ok(v) => v.to_bits().to_string(),
+                    Err(e) => err_str(&e),
+                })
+                .collect(),
+        };
+        (per.join(" "), Seen::default())
+    });
+    settle(ctx, req, bytes, r);
+}
+
+fn run_mvar(ctx: &mut Ctx) {
+    let rounds = if ctx.thorough { 30 } else { 8 };
+    for round in 0..rounds {
+        let n = [0usize, 1, 2, 3, 5, 8, 10, 4][round % 8];
+        let mut tags: Vec<[u8; 4]> = MVAR_TAGS.iter().map(|t| **t).collect();
+        ctx.rng.shuffle(&mut tags);
+        tags.truncate(n);
+        // the search is only meaningful on sorted records; every 4th table is left unsorted
+        if round % 4 != 3 {
+            tags.sort();
+        }
+        let ac = 1 + ctx.rng.below(2) as u16;
+        let mut b = B::new();
+        b.u16(1).u16(0).u16(0).f16(8).f16(tags.len() as u16).f16(0);
+        for t in &tags {
+            b.tag(t).u16(ctx.rng.below(2) as u16).u16(ctx.rng.below(2) as u16);
+        }
+        if round % 5 != 4 {
+            let (nr, nd) = (1 + ctx.rng.below(3) as u16, 1 + ctx.rng.below(2) as usize);
+            let (store, _) = ivs(&mut ctx.rng, ac, nr, nd);
+            let at = b.append(&store);
+            b.set16(10, at as u16);
+        }
+        let coords = hot_coords(&mut ctx.rng, ac);
+        let mut asks: Vec<u32> = MVAR_TAGS.iter().map(|t| u32::from_be_bytes(**t)).collect();
+        asks.extend([0, 1, u32::MAX, u32::from_be_bytes(*b"hasb"), u32::from_be_bytes(*b"hasd"), u32::from_be_bytes(*b"zzzz")]);
+        for (k, v) in variants(&mut ctx.rng, &b, 8).into_iter().enumerate() {
+            if k == 0 {
+                ask_mvar(ctx, &asks, &coords, &v);
+                ask_mvar(ctx, &asks, &[], &v);
+            } else {
+                ask_mvar(ctx, &asks[k % 5..k % 5 + 6], &coords, &v);
+            }
+        }
+        ctx.count(&format!("mvar.records{}", n.min(4)));
+    }
+}
+
+// ------------------------------------------------------------------------------------------------
+// avar SegmentMaps: `hv.avar <hex> <coords as Fixed bits…>`
+
+fn ask_avar(ctx: &mut Ctx, coords: &[i32], bytes: &[u8]) {
+    let req = format!("hv.avar {} {}", hex(bytes), join(coords));
+    let r = catch(|| {
+        let per: Vec<String> = match SegmentMaps::read(FontData::new(bytes)) {
+            Err(e) => coords.iter().map(|_| err_str(&e)).collect(),
+            Ok(m) => coords.iter().map(|c| m.apply(Fixed::from_bits(*c)).to_bits().to_string()).collect(),
+        };
+        (per.join(" "), Seen::default())
+    });
+    settle(ctx, req, bytes, r);
+}
+
+fn run_avar(ctx: &mut Ctx) {
+    let rounds = if ctx.thorough { 200 } else { 40 };
+    for round in 0..rounds {
+        let n = match round % 6 {
+            0 => 0,
+            1 => 1,
+            2 => 3,
+            _ => 2 + ctx.rng.below(5) as usize,
+        };
+        let mut b = B::new();
+        b.f16(n as u16);
+        let mut from: Vec<i16> = (0..n).map(|_| rcoord(&mut ctx.rng)).collect();
+        match ctx.rng.below(4) {
+            0 => {}
+            1 if n > 1 => {
+                from.sort();
+                from[n - 1] = from[n - 2];
+            }
+            _ => from.sort(),
+        }
+        let mut coords: Vec<i32> = vec![0, 0x10000, -0x10000, 1, -1, i32::MAX, i32::MIN, 0x8000];
+        for f in &from {
+            let c = *f as i32 * 4;
+            coords.extend([c - 1, c, c + 1]);
+        }
+        for f in from {
+            b.i16(f).i16(rcoord(&mut ctx.rng));
+        }
+        b.bytes(&rbytes(&mut ctx.rng, 3));
+        for v in variants(&mut ctx.rng, &b, 2) {
+            ask_avar(ctx, &coords, &v);
+        }
+        ctx.count(&format!("avar.maps{}", n.min(4)));
+    }
+}
+
 pub fn run(ctx: &mut Ctx) {
+    run_dsim(ctx);
+    run_ivs(ctx);
+    run_metrics(ctx);
+    run_mvar(ctx);
+    run_avar(ctx);
     run_tvhdr(ctx);
     run_cvar(ctx);
     run_cvard(ctx);
